@@ -29,15 +29,15 @@ import (
 )
 
 type validateTest struct {
-	Pkg     string `json:"package"`
-	Name    string `json:"test"`
-	Engine  string `json:"engine"` // pass | fail | unsupported | <other outcome>
-	Native  string `json:"native"` // pass | fail | skip | absent
-	Paths   int64  `json:"paths"`
-	Steps   int64  `json:"steps"`
-	Detail  string `json:"detail,omitempty"`
-	Agrees  bool   `json:"agrees"`
-	Subs    int    `json:"subtests_run"`
+	Pkg     string  `json:"package"`
+	Name    string  `json:"test"`
+	Engine  string  `json:"engine"` // pass | fail | unsupported | <other outcome>
+	Native  string  `json:"native"` // pass | fail | skip | absent
+	Paths   int64   `json:"paths"`
+	Steps   int64   `json:"steps"`
+	Detail  string  `json:"detail,omitempty"`
+	Agrees  bool    `json:"agrees"`
+	Subs    int     `json:"subtests_run"`
 	WallSec float64 `json:"wall_s"`
 }
 
@@ -377,9 +377,9 @@ func ensureValidation(repo, vd string) map[string]interface{} {
 		}
 	}
 	return map[string]interface{}{
-		"what":             "every Test function of the repository's own suite executed by the symbolic interpreter; verdict compared with go test",
-		"repo_test_funcs":  r.Total, "same_verdict": r.Agree, "different_verdict": r.Disagree, "engine_cannot_run": r.Unsupported,
-		"not_agreeing":     unsupported, "repo_tree_id": r.TreeID, "report": path,
+		"what":            "every Test function of the repository's own suite executed by the symbolic interpreter; verdict compared with go test",
+		"repo_test_funcs": r.Total, "same_verdict": r.Agree, "different_verdict": r.Disagree, "engine_cannot_run": r.Unsupported,
+		"not_agreeing": unsupported, "repo_tree_id": r.TreeID, "report": path,
 		"engine_self_tests": len(r.SelfTests),
 	}
 }
